@@ -876,8 +876,13 @@ class FragmentSender(object):
             payload = struct.pack(">HHH", self.frag_id, 1 + index, len(self.fragments))
             payload += self.fragments[index]
             self.conn._send_type(PacketType.APP_FRAGMENT, payload, self.retry, cbk)
-        else:
+        elif self.acks[index] is None:
             self.acks[index] = success
+            if None not in self.acks:
+                # every fragment was either acked or timed out
+                self.conn.pending_fragments.pop(self.frag_id, None)
+                if self.user_callback:
+                    self.user_callback(all(self.acks))
 
     @staticmethod
     def parsePayload(payload):
